@@ -101,8 +101,9 @@ class Report:
         known = load_known()
         known_keys = {}
         for k in known["known"]:
-            if self.prop in k.get("properties", [k.get("property")]):
-                known_keys[k["key"]] = k
+            # a key names one construct and one verdict; the same defect may be reported by the
+            # checks of several properties (shared rules)
+            known_keys[k["key"]] = k
         n_known = 0
         violations = []
         lines = []
